@@ -291,3 +291,28 @@ pub proof fn lemma_bumpn_no_wrap(v: u64, n: int)
 {
     if n > 0 { lemma_bumpn_no_wrap(v, n - 1); }
 }
+
+// ---- helper lemmas for the L1 proofs ------------------------------------------------------------------------
+pub proof fn lemma_body_pre_at(b: Seq<Stmt>, n: int, k: int, li: Seq<usize>)
+    requires body_pre(b, n, li), 0 <= k < n <= b.len(),
+    ensures visit_pre(b[k], li),
+    decreases n
+{
+    if k < n - 1 { lemma_body_pre_at(b, n - 1, k, li); }
+}
+/// the first fixture decorator is at k: nothing before it is one
+pub proof fn lemma_first_fix_at(ds: Seq<Expr>, k0: int, k: int)
+    requires 0 <= k0 <= k < ds.len(), spec_is_fixture_decorator(&ds[k]),
+        forall|j: int| k0 <= j < k ==> !spec_is_fixture_decorator(&#[trigger] ds[j]),
+    ensures first_fix(ds, k0) == Some(k),
+    decreases k - k0
+{
+    if k0 < k { lemma_first_fix_at(ds, k0 + 1, k); }
+}
+pub proof fn lemma_first_fix_none(ds: Seq<Expr>, k0: int)
+    requires 0 <= k0, forall|j: int| k0 <= j < ds.len() ==> !spec_is_fixture_decorator(&#[trigger] ds[j]),
+    ensures first_fix(ds, k0) is None,
+    decreases ds.len() - k0
+{
+    if k0 < ds.len() { lemma_first_fix_none(ds, k0 + 1); }
+}
